@@ -241,6 +241,7 @@ def main(tier, seed):
             return goals
         e.obligation("returns-a-maximiser-of-the-row", is_max_tab)
 
+    _loops_and_epsilon_greedy(rep, tier, seed)
     if tier == "thorough":
         bad = sess.cross_check()
         rep.extra["cvc5_disagreements"] = bad
@@ -249,6 +250,76 @@ def main(tier, seed):
     rep.add_queries(sess)
     rep.samples = [o["name"] for o in rep.obligations if o["kind"] == "obligation"][:12]
     return rep.finish()
+
+
+def _loops_and_epsilon_greedy(rep, tier, seed):
+    """E2 part: the eager epsilon_greedy_policy and the action selection inside the DQN-family loops."""
+    from e2_pysym import core as E
+    from e2_pysym.core import sym_real, sym_int
+    from props import loops as L
+    from props import loopworld as W
+    from props.e2common import E2Report, overlay
+    from rl_blox.blox import value_policy as vp
+    from rl_blox.blox.schedules import linear_schedule
+    e2 = E2Report(PROP, tier, seed)
+    e2.r = rep  # fold into the same report
+
+    def eps_prog(ctx):
+        shim = W.JaxRandomShim(True)
+        calls = []
+
+        def greedy(q, o):
+            calls.append((q, o))
+            return 4242
+        q_table = jnp.asarray(np.random.default_rng(seed).normal(size=(3, 2)), dtype=jnp.float32)
+        obs = int(sym_int("obs", 0, 2))
+        eps = sym_real("epsilon", 0, 1)
+        with overlay(vp, random=shim, greedy_policy=greedy):
+            a = vp.epsilon_greedy_policy(q_table, obs, eps, ("key", 0))
+        roll = shim.draws[0][0]
+        explored = roll < eps
+        is_random = len(shim.choices) == 1 and a == shim.choices[0][2]
+        is_greedy = len(calls) == 1 and a == 4242 and calls[0][0] is q_table and calls[0][1] == obs
+        ctx.check(is_random == explored, "epsilon-greedy:random-action-exactly-when-roll<epsilon")
+        ctx.check(is_greedy == (~explored if not isinstance(explored, bool) else not explored), "epsilon-greedy:otherwise-greedy-on-the-given-table-and-observation")
+        ctx.check((~(eps == 0)) | is_greedy if not isinstance(eps == 0, bool) else ((eps != 0) or is_greedy), "epsilon=0-is-greedy")
+        ctx.check((~(eps == 1)) | is_random if not isinstance(eps == 1, bool) else ((eps != 1) or is_random), "epsilon=1-ignores-the-values")
+        if is_random:
+            ctx.check(len(shim.choices[0][1]) == 2, "random-action-drawn-from-all-actions-of-the-row")
+    e2.run("value_policy.epsilon_greedy_policy", eps_prog, fn="rl_blox.blox.value_policy.epsilon_greedy_policy")
+
+    def loop_prog(which, K, start):
+        def prog(ctx):
+            tr = L.run_dqn_family(ctx, which, K, start, symbolic=("learning_starts", "rolls"))
+            total = start + K
+            eps = np.asarray(linear_schedule(total))
+            rolls = None
+            import importlib
+            # the shim instance is not reachable from the trace: recover the rolls from the path's symbols by name order
+            greedy = {at: p for (_, at, p) in tr.w.of("greedy_policy")}
+            sampled = {at: p for (_, at, p) in tr.w.of("space_sample")}
+            ls = tr.cfg.get("learning_starts", 0)
+            for k, st in enumerate(tr.env.steps):
+                s_ = start + k
+                a = W.tagval(st["action"])
+                from_greedy = k in greedy and a >= 2000
+                from_sampler = k in sampled and 1000 <= a < 2000
+                ctx.check(from_greedy != from_sampler, "loop:action-comes-from-exactly-one-of-greedy-policy/uniform-sampler")
+                if from_greedy:
+                    ctx.check(greedy[k]["args"][0] is tr.cfg["q"], "loop:greedy-action-uses-the-current-online-estimate")
+                    ctx.check(W.tagval(greedy[k]["args"][1]) == W.tagval(st["obs"]), "loop:greedy-action-uses-the-current-observation")
+                roll = tr.w.rolls[s_] if getattr(tr.w, "rolls", None) is not None else None
+                if roll is not None:
+                    explore = (roll < float(eps[s_]))
+                    if which != "dqn":
+                        explore = (s_ < ls) | explore if not isinstance(s_ < ls, bool) or not isinstance(explore, bool) else ((s_ < ls) or explore)
+                    ctx.check(from_sampler == explore, "loop:explores-exactly-when-roll<scheduled-epsilon(or-warm-up),-acts-greedily-otherwise")
+        return prog
+    for which in ("dqn", "nature_dqn", "ddqn", "per"):
+        for K in ([2, 3] if tier == "quick" else [2, 3, 4]):
+            e2.run(f"action-selection:train_{which}[K={K}]", loop_prog(which, K, 0), fn=f"rl_blox.algorithm.{which}", site_of=lambda label, which=which: f"train_{which}:{label}")
+    rep.bounds["loops"] = "DQN family, K<=4 steps, symbolic epsilon rolls in [0,1), learning_starts symbolic; epsilon_greedy_policy: symbolic epsilon in [0,1] and roll"
+    rep.extra["e2_paths"] = rep.paths
 
 
 def _noise_layout(out, noise):
